@@ -509,8 +509,8 @@ def units(tier, seed):
     out.append(("streams", {"examples": 2500 if q else 50000}))
     out.append(("key-streams", {"examples": 60 if q else 1500}))
     out.append(("seed-helpers", {"top": 600 if q else 4096}))
-    out.append(("default-entropy", {"curve": "t13", "draws": 1500 if q else 20000}))
-    out.append(("default-entropy", {"curve": "t23a", "draws": 2500 if q else 30000}))
+    out.append(("default-entropy", {"curve": "t13-twin", "draws": 1500 if q else 20000}))
+    out.append(("default-entropy", {"curve": "t23a-twin", "draws": 2500 if q else 30000}))
     out.append(("falsy-entropy", {"examples": 300 if q else 5000}))
     return out
 
